@@ -481,7 +481,7 @@ func (p *prober) run(batch, procs int) bool {
 var jsKeywords = map[string]bool{"typeof": true, "void": true, "delete": true, "new": true, "await": true, "yield": true, "in": true, "instanceof": true,
 	"function": true, "class": true, "this": true, "if": true, "else": true, "for": true, "while": true, "do": true, "switch": true, "case": true,
 	"return": true, "throw": true, "var": true, "const": true, "export": true, "default": true, "import": true, "with": true, "extends": true, "of": true,
-	"k": true, "m": true, "f": true, "w": true, "C": true, "l": true, "v": true, "break": true, "next": true}
+	"k": true, "m": true, "f": true, "w": true, "C": true, "l": true, "v": true, "u": true, "break": true, "next": true}
 
 func isIdent(t string) bool {
 	if t == "" {
@@ -537,6 +537,21 @@ func dropExports(tr []string) []string {
 	return out
 }
 
+// A function / class leaf that meets an operator which converts it to a string (`class{} + y`, `function(){} in y`)
+// makes its own source text observable; the property excludes that (Function.prototype.toString), and esbuild only
+// re-formats the white space of such a leaf: trace lines are compared modulo white space.
+func squeeze(l string) string {
+	return strings.Join(strings.Fields(strings.ReplaceAll(l, "\\n", " ")), "")
+}
+
+func squeezeAll(tr []string) []string {
+	out := make([]string, len(tr))
+	for i, l := range tr {
+		out[i] = squeeze(l)
+	}
+	return out
+}
+
 func sameTraces(a, b [][]string, ignoreExports bool) (bool, string) {
 	if len(a) != len(b) {
 		return false, "different number of valuations"
@@ -546,7 +561,7 @@ func sameTraces(a, b [][]string, ignoreExports bool) (bool, string) {
 		if ignoreExports {
 			x, y = dropExports(x), dropExports(y)
 		}
-		if strings.Join(x, "\n") != strings.Join(y, "\n") {
+		if strings.Join(squeezeAll(x), "\n") != strings.Join(squeezeAll(y), "\n") {
 			return false, fmt.Sprintf("valuation %d: input trace %q, output trace %q", v, x, y)
 		}
 	}
